@@ -52,7 +52,7 @@ func init() {
 			}
 			return 16
 		},
-		Rule: fmt.Sprintf("vote lists: a validator set of n fresh keys (+3 foreign keys); a subset S of validators signs the exact precommit (|S| biased to floor(2n/3), floor(2n/3)+1, n), then 0..2 items are added or substituted from: duplicated signer (same or other timestamp), non-validator, signature over another block id / round / part-set hash / part-set count word / height / prevote type / timestamp, bit-flipped signature, flipped V, V>=8, r=0, 64-byte, empty and 63-byte signature; list bytes encoded by the harness, decoded by goloop. Entry 1 (n in 1..10, %d lists per case): CommitVoteList.VerifyBlock against a real validator list. Entry 2 (n in 1..5, %d imports per two-node chain): an honest height-2 block whose body votes, header votes-hash and timestamp are replaced, through BlockManager.Import of a follower node. Entry 3 (one list per chain, four modes in rotation): consensus.ReceiveBlockResult of a started follower with a custom BlockResult (Consume vs Reject): (a) clean certificate, n in 1..5; (b) the general list generator, n in 1..5; (c) n in 3..6, an UNDER-quorum set of distinct signers padded with re-timestamped valid precommits of signers already present (duplicate last / first / interleaved / shuffled) until the item count exceeds 2n/3; (d) n in 3..6, precommits of an under-quorum set delivered through OnReceive first, then a list of re-timestamped precommits of the same signers. Model: accept iff every item recovers (decred, harness-serialized precommit) to a distinct member and 3*items > 2*n; for entry 3 (which tallies through the vote set) only the core is demanded: Consume needs > 2/3 distinct valid member precommits, a clean certificate must be consumed. Non-trivial = distinct list that has at least one bad item or sits on the threshold boundary.", listsPerCase, importsPerWorld),
+		Rule: fmt.Sprintf("vote lists: a validator set of n fresh keys (+3 foreign keys); a subset S of validators signs the exact precommit (|S| biased to floor(2n/3), floor(2n/3)+1, n), then 0..2 items are added or substituted from: duplicated signer (same or other timestamp), non-validator, signature over another block id / round / part-set hash / part-set count word / height / prevote type / timestamp, bit-flipped signature, flipped V, V>=8, r=0, 64-byte, empty and 63-byte signature; list bytes encoded by the harness, decoded by goloop. Entry 1 (n in 1..10, %d lists per case): CommitVoteList.VerifyBlock against a real validator snapshot V; in half of the cases validator states are derived from V (state.ValidatorStateFromSnapshot) and mutated between the verifications (Replace / SetAt towards the outsider keys the lists use, Add, Remove, Set; derived states and their snapshots kept alive, also derived from each other): V keeps its membership in the model, and lists generated for a derived snapshot are judged against that snapshot with its own membership. Entry 2 (n in 1..5, %d imports per two-node chain): an honest height-2 block whose body votes, header votes-hash and timestamp are replaced, through BlockManager.Import of a follower node. Entry 3 (one list per chain, four modes in rotation): consensus.ReceiveBlockResult of a started follower with a custom BlockResult (Consume vs Reject): (a) clean certificate, n in 1..5; (b) the general list generator, n in 1..5; (c) n in 3..6, an UNDER-quorum set of distinct signers padded with re-timestamped valid precommits of signers already present (duplicate last / first / interleaved / shuffled) until the item count exceeds 2n/3; (d) n in 3..6, precommits of an under-quorum set delivered through OnReceive first, then a list of re-timestamped precommits of the same signers. Model: accept iff every item recovers (decred, harness-serialized precommit) to a distinct member and 3*items > 2*n; for entry 3 (which tallies through the vote set) only the core is demanded: Consume needs > 2/3 distinct valid member precommits, a clean certificate must be consumed. Non-trivial = distinct list that has at least one bad item or sits on the threshold boundary.", listsPerCase, importsPerWorld),
 		MinNonTrivial: func(t string) int {
 			if t == ev.Thorough {
 				return 20000
@@ -60,7 +60,7 @@ func init() {
 			return 700
 		},
 		Required: []string{"accept_agreed", "reject_agreed", "reject_too_few", "reject_duplicate", "reject_non_member", "reject_unrecoverable", "boundary_at_floor", "boundary_at_floor_plus_1", "threshold_reached_only_by_duplicate", "decode_rejected", "valid_item_reference_recovers_signer",
-			"import_accept_agreed", "import_reject_agreed", "blockresult_consume_agreed", "blockresult_reject_agreed", "blockresult_underquorum_padded_with_duplicates", "blockresult_dup_last", "blockresult_predelivered_votes"},
+			"verifications_after_derived_state_mutation", "derived_state_replace_or_setat", "derived_snapshot_verifications", "foreign_signer_lists_after_mutation", "import_accept_agreed", "import_reject_agreed", "blockresult_consume_agreed", "blockresult_reject_agreed", "blockresult_underquorum_padded_with_duplicates", "blockresult_dup_last", "blockresult_predelivered_votes"},
 		Assumptions: []string{
 			"decred secp256k1 recovery called directly is the reference for an item's signer",
 			"a precommit signs sha3-256 of RLP[height, round, type=1, blockID, [countWord, partSetHash] | null, timestamp] (harness encoder lib/sig/rlp.go; validated by the positive cases of all three entry points)",
@@ -430,7 +430,25 @@ func runVerifyBlock(c *ev.Ctx, r *rand.Rand) {
 	}
 	keyHex := privHex(vals)
 	c.Note("validators(priv)=%v", keyHex)
+	// In half of the cases states are derived from the snapshot vl and mutated
+	// between the verifications (what executing the next block does: validator
+	// replacement, term change). The snapshot vl is immutable: the model of its
+	// membership (vals) never changes.
+	mutating := r.Intn(2) == 0
+	var deriveds []*derived // kept alive for the whole case
+	mutatedBefore := false
 	for li := 0; li < listsPerCase && !c.Stopped(); li++ {
+		if mutating && (li == 0 || r.Intn(3) == 0) {
+			base, baseKeys := state.ValidatorSnapshot(vl), vals
+			if len(deriveds) > 0 && r.Intn(3) == 0 {
+				d := deriveds[r.Intn(len(deriveds))]
+				base, baseKeys = d.snap, d.keys
+			}
+			if d := derive(c, r, base, baseKeys, foreign); d != nil {
+				deriveds = append(deriveds, d)
+				mutatedBefore = true
+			}
+		}
 		var t target
 		switch r.Intn(5) {
 		case 0:
@@ -467,7 +485,23 @@ func runVerifyBlock(c *ev.Ctx, r *rand.Rand) {
 			m["what"] = what
 			m["entry"] = "VerifyBlock"
 			m["validators_priv"] = keyHex
+			if mutatedBefore {
+				var hist []string
+				for _, d := range deriveds {
+					hist = append(hist, d.ops...)
+				}
+				m["mutations_of_states_derived_from_this_snapshot"] = hist
+			}
 			return m
+		}
+		if mutatedBefore {
+			c.Count("verifications_after_derived_state_mutation", 1)
+			if len(g.kinds) > 0 && g.kinds[0] == "foreign" {
+				c.Count("foreign_signer_lists_after_mutation", 1)
+			}
+		}
+		if len(deriveds) > 0 && r.Intn(2) == 0 {
+			verifyDerived(c, r, deriveds[r.Intn(len(deriveds))], t, blk)
 		}
 		cvs := consensus.NewCommitVoteSetFromBytes(raw)
 		got := false
@@ -496,9 +530,9 @@ func runVerifyBlock(c *ev.Ctx, r *rand.Rand) {
 		}
 		switch {
 		case got && !g.want:
-			c.Violation("verifyblock.accepts."+g.reason+"."+g.kindKey(), wit("accepted a list the statement rejects"))
+			c.Violation("verifyblock.accepts."+g.reason+"."+g.kindKey()+after(mutatedBefore), wit("accepted a list the statement rejects"))
 		case !got && g.want:
-			c.Violation("verifyblock.rejects-valid-certificate", wit(fmt.Sprint("rejected: ", verr, " decoded=", cvs != nil)))
+			c.Violation("verifyblock.rejects-valid-certificate"+after(mutatedBefore), wit(fmt.Sprint("rejected: ", verr, " decoded=", cvs != nil)))
 		case g.want:
 			c.Count("accept_agreed", 1)
 			if len(voted) != n {
@@ -536,5 +570,191 @@ func runVerifyBlock(c *ev.Ctx, r *rand.Rand) {
 		if li == 0 && c.WantSample() {
 			c.Sample(wit("sample"))
 		}
+	}
+}
+
+func after(mutated bool) string {
+	if mutated {
+		return ".after-derived-state-mutation"
+	}
+	return ""
+}
+
+// derived is a validator state derived from a snapshot, mutated, with the
+// harness's own model of its membership.
+type derived struct {
+	st   state.ValidatorState
+	snap state.ValidatorSnapshot
+	keys []*sig.Key
+	ops  []string
+}
+
+func validatorOf(k *sig.Key) module.Validator {
+	v, err := state.ValidatorFromAddress(common.NewAccountAddress(k.Addr[:]))
+	if err != nil {
+		panic(err)
+	}
+	return v
+}
+
+func memberIdx(keys []*sig.Key, k *sig.Key) int {
+	for i, x := range keys {
+		if x.Addr == k.Addr {
+			return i
+		}
+	}
+	return -1
+}
+
+// derive creates a state from a live snapshot and applies 1..3 mutations.
+func derive(c *ev.Ctx, r *rand.Rand, base state.ValidatorSnapshot, baseKeys, foreign []*sig.Key) *derived {
+	d := &derived{st: state.ValidatorStateFromSnapshot(base), keys: append([]*sig.Key(nil), baseKeys...)}
+	outsider := func() *sig.Key {
+		// mostly the outsider keys that the generated lists use
+		for try := 0; try < 8; try++ {
+			k := foreign[r.Intn(len(foreign))]
+			if r.Intn(4) == 0 {
+				k = sig.NewKey(r)
+			}
+			if memberIdx(d.keys, k) < 0 {
+				return k
+			}
+		}
+		return sig.NewKey(r)
+	}
+	nops := 1 + r.Intn(3)
+	for o := 0; o < nops; o++ {
+		op := r.Intn(8)
+		if len(d.keys) == 0 {
+			op = 5
+		}
+		switch {
+		case op <= 2: // Replace(member -> outsider)
+			i := r.Intn(len(d.keys))
+			nk := outsider()
+			if err := d.st.Replace(validatorOf(d.keys[i]), validatorOf(nk)); err != nil {
+				c.Notef("Replace failed: %v", err)
+				return nil
+			}
+			d.ops = append(d.ops, fmt.Sprintf("Replace(%d: hx%x -> hx%x)", i, d.keys[i].Addr, nk.Addr))
+			d.keys[i] = nk
+			c.Count("derived_state_replace_or_setat", 1)
+		case op <= 4: // SetAt(i, outsider)
+			i := r.Intn(len(d.keys))
+			nk := outsider()
+			if err := d.st.SetAt(i, validatorOf(nk)); err != nil {
+				c.Notef("SetAt failed: %v", err)
+				return nil
+			}
+			d.ops = append(d.ops, fmt.Sprintf("SetAt(%d, hx%x)", i, nk.Addr))
+			d.keys[i] = nk
+			c.Count("derived_state_replace_or_setat", 1)
+		case op == 5: // Add(outsider)
+			nk := outsider()
+			if err := d.st.Add(validatorOf(nk)); err != nil {
+				c.Notef("Add failed: %v", err)
+				return nil
+			}
+			d.ops = append(d.ops, fmt.Sprintf("Add(hx%x)", nk.Addr))
+			d.keys = append(d.keys, nk)
+		case op == 6 && len(d.keys) > 1: // Remove(member)
+			i := r.Intn(len(d.keys))
+			if !d.st.Remove(validatorOf(d.keys[i])) {
+				c.Notef("Remove of a member returned false")
+				return nil
+			}
+			d.ops = append(d.ops, fmt.Sprintf("Remove(%d: hx%x)", i, d.keys[i].Addr))
+			d.keys = append(append([]*sig.Key(nil), d.keys[:i]...), d.keys[i+1:]...)
+		default: // Set(permutation with one outsider)
+			nk := outsider()
+			nl := append([]*sig.Key(nil), d.keys...)
+			nl = append(nl, nk)
+			r.Shuffle(len(nl), func(i, j int) { nl[i], nl[j] = nl[j], nl[i] })
+			var mv []module.Validator
+			for _, k := range nl {
+				mv = append(mv, validatorOf(k))
+			}
+			if err := d.st.Set(mv); err != nil {
+				c.Notef("Set failed: %v", err)
+				return nil
+			}
+			d.ops = append(d.ops, fmt.Sprintf("Set(%d validators)", len(nl)))
+			d.keys = nl
+		}
+		if r.Intn(3) == 0 {
+			_ = d.st.GetSnapshot() // an intermediate snapshot freezes the list; the next op clones again
+		}
+	}
+	d.snap = d.st.GetSnapshot()
+	// the model of the derived membership must agree with what the snapshot lists (Get is not under test here)
+	if d.snap.Len() != len(d.keys) {
+		c.Count("derived_model_mismatch", 1)
+		return nil
+	}
+	for i, k := range d.keys {
+		v, ok := d.snap.Get(i)
+		if !ok || string(v.Address().ID()) != string(k.Addr[:]) {
+			c.Count("derived_model_mismatch", 1)
+			return nil
+		}
+	}
+	return d
+}
+
+// verifyDerived: a fresh list for the derived snapshot, judged against ITS membership.
+func verifyDerived(c *ev.Ctx, r *rand.Rand, d *derived, t target, blk module.BlockData) {
+	n := len(d.keys)
+	if n == 0 {
+		return
+	}
+	c.Eval(1)
+	index := map[[20]byte]int{}
+	for i, k := range d.keys {
+		index[k.Addr] = i
+	}
+	var outs []*sig.Key
+	for len(outs) < 3 {
+		if k := sig.NewKey(r); memberIdx(d.keys, k) < 0 {
+			outs = append(outs, k)
+		}
+	}
+	g := genList(r, n, d.keys, outs, index, t, 0)
+	raw := encodeList(t, g.items)
+	c.Note("derived n=%d ops=%v list=%x", n, d.ops, raw)
+	wit := func(what string) map[string]interface{} {
+		m := g.witness(t, raw, index)
+		m["what"] = what
+		m["entry"] = "VerifyBlock against a snapshot of a derived, mutated state"
+		m["validators_priv"] = privHex(d.keys)
+		m["mutations"] = d.ops
+		return m
+	}
+	cvs := consensus.NewCommitVoteSetFromBytes(raw)
+	if cvs == nil {
+		if g.want {
+			c.Violation("verifyblock.derived-snapshot.rejects-valid-certificate", wit("not decoded"))
+		}
+		return
+	}
+	var verr error
+	func() {
+		defer func() {
+			if p := recover(); p != nil {
+				c.Violation("verifyblock.derived-snapshot.panics", wit(fmt.Sprint("panic: ", p)))
+				verr = fmt.Errorf("panic")
+			}
+		}()
+		_, verr = cvs.VerifyBlock(blk, d.snap)
+	}()
+	c.Count("derived_snapshot_verifications", 1)
+	switch got := verr == nil; {
+	case got && !g.want:
+		c.Violation("verifyblock.derived-snapshot.accepts."+g.reason+"."+g.kindKey(), wit("accepted a list the statement rejects"))
+	case !got && g.want:
+		c.Violation("verifyblock.derived-snapshot.rejects-valid-certificate", wit(fmt.Sprint(verr)))
+	case g.want:
+		c.Count("derived_snapshot_accept_agreed", 1)
+	default:
+		c.Count("derived_snapshot_reject_agreed", 1)
 	}
 }
